@@ -52,7 +52,7 @@ Fixpoint parse_expr_in (pool : list expr) (fuel : nat) (l : list str) : option (
       if tk [86] t then match f_list r with Some (vs, r1) => Some (EValues vs, r1) | None => None end
       else if tk [68] t then match f_list r with Some (vs, r1) => Some (EValuesDescribed vs, r1) | None => None end
       else if tk [84] t then match f_list r with Some (vs, r1) => Some (EStyledValuesDescribed vs, r1) | None => None end
-      else if tk [83] t || tk [83;72] t then
+      else if tk [83] t || tk [83;72] t || tk [83;72;83] t then
         match f_meta r with
         | Some (m, r1) => match f_rawlist r1 with Some (vs, r2) => Some (EStatic m vs, r2) | None => None end
         | None => None
@@ -93,6 +93,11 @@ Fixpoint parse_expr_in (pool : list expr) (fuel : nat) (l : list str) : option (
       else if tk [80;84] t then lst EPartition r
       else if tk [83;69] t then match r with k :: v :: r1 => un (ESetenv k v) r1 | _ => None end
       else if tk [71;69] t then match r with k :: r1 => Some (EGetenv k, r1) | [] => None end
+      else if tk [76;69;84] t then                                             (* LET e body: body may REF the bound action *)
+        match sub r with
+        | Some (e1, r1) => parse_expr_in (pool ++ [e1]) f r1
+        | None => None
+        end
       else if tk [74] t then sub r                                             (* J e: jitter wrapper = e *)
       else if tk [66;83] t then                                                (* BS n e: Batch of n times e *)
         match r with
